@@ -64,6 +64,9 @@ var verifRefQueries = []string{
 	`max(foo) by (a) > bool 0`,
 }
 
+// quick tier: one or two shapes per operator family (indices into verifRefQueries)
+var verifRefQuick = []int{1, 3, 9, 13, 16, 25, 28, 31, 34, 35, 40, 44}
+
 func verifSameSample(site string, gl, wl labels.Labels, gt, wt int64, gv, wv float64) {
 	sym.Assert(site+"/labels", labels.Equal(gl, wl))
 	sym.Assert(site+"/timestamp", gt == wt)
@@ -125,7 +128,11 @@ func verifSameResult(site string, got, want *promql.Result) {
 // symbolic storage: value type, series and label sets, timestamps, values and errors.
 func VerifH01b() {
 	sym.RealReference()
-	qs := verifRefQueries[sym.Choice("query", len(verifRefQueries))]
+	qi := sym.Choice("query", sym.Tier(len(verifRefQuick), len(verifRefQueries)))
+	if sym.Tier(0, 1) == 0 {
+		qi = verifRefQuick[qi]
+	}
+	qs := verifRefQueries[qi]
 	start := sym.Int64("start", 0, verifR)
 	lookback := sym.Int64("lookback", 1, verifR)
 	rangeQ := sym.Choice("range", 2) == 1
@@ -134,9 +141,6 @@ func VerifH01b() {
 		step = sym.Int64("step", 1, verifR)
 	}
 	data := verifData1()
-	if sym.Tier(0, 1) == 1 {
-		data = verifData(2)
-	}
 	sym.SetGOMAXPROCS(2 * sym.IntRange("shards", 1, 2))
 	e := verifEngine(logicalplan.DefaultOptimizers, lookback)
 	o := promql.EngineOpts{MaxSamples: 1000000, Timeout: 3600000000000, EnableAtModifier: true, EnableNegativeOffset: true}
